@@ -197,6 +197,7 @@ Definition check (k : icase) : bool :=
   && forallb (waiting_ok (k_flows k)) (k_inspections k)
   && forallb (deps_ok (k_flows k)) (k_inspections k)
   && forallb valid_flow (k_flows k)
+  && distinct_flow_ids (k_flows k)
   && accepts (k_names k) (k_flows k) (k_trace k)
   && replay_ok k.
 
@@ -206,7 +207,7 @@ Definition diagnose (k : icase) : list N :=
   (if forallb (results_ok (k_flows k)) (k_inspections k) then [] else [1])
   ++ (if forallb (waiting_ok (k_flows k)) (k_inspections k) then [] else [2])
   ++ (if forallb (deps_ok (k_flows k)) (k_inspections k) then [] else [3])
-  ++ (if forallb valid_flow (k_flows k) then [] else [4])
+  ++ (if forallb valid_flow (k_flows k) && distinct_flow_ids (k_flows k) then [] else [4])
   ++ (if accepts (k_names k) (k_flows k) (k_trace k) then [] else [5])
   ++ (if replay_ok k then [] else [6]).
 
